@@ -1,19 +1,29 @@
 // c15: schedule-level correspondence for concurrent ptt.SetupNewUser (property C15).
-// Registration threads are goroutines of this process; the verif hook points
-// reg.afterCheck / reg.afterLock / reg.beforeUnlock stop each one until the
-// controller releases it, so every interleaving at those points can be forced.
+//
+// A registration thread lives in a (process, goroutine) pair. Process 0 is this process (the
+// schedule controller): its threads are goroutines here. Processes 1.. are further server
+// processes — this binary re-executed with -mode child — that attach to the same private
+// BBSHOME, shared-memory segment and passwd semaphore (bbsenv.Attach) and host goroutines
+// that call the real ptt.SetupNewUser. The verif hook points reg.afterCheck / reg.afterLock /
+// reg.beforeUnlock stop every thread, wherever it lives, until the controller releases it, so
+// every interleaving at those points can be forced, across processes too. A schedule element
+// >= 100 starts one more server process that runs cmbbs.PasswdInit (as main_init does) and exits.
 package main
 
 import (
+	"bufio"
 	"bytes"
 	"fmt"
+	"io"
 	"os"
 	"os/exec"
+	"reflect"
 	"runtime"
 	"sort"
 	"strconv"
 	"strings"
 	"sync"
+	"syscall"
 	"time"
 	"unsafe"
 
@@ -36,42 +46,6 @@ func goid() string {
 		return f[1]
 	}
 	return "?"
-}
-
-type event struct {
-	kind string // at | done
-	arg  string
-}
-
-type ctl struct {
-	mu      sync.Mutex
-	tidOf   map[string]int
-	gate    []chan struct{}
-	events  []chan event
-	state   []string
-	started []bool
-	blocked []bool
-	done    []bool
-	ids     []string
-	errs    []string
-	eintr   bool
-}
-
-var cur *ctl
-
-func hook(name string) {
-	if !strings.HasPrefix(name, "reg.") || cur == nil {
-		return
-	}
-	c := cur
-	c.mu.Lock()
-	tid, ok := c.tidOf[goid()]
-	c.mu.Unlock()
-	if !ok {
-		return
-	}
-	c.events[tid] <- event{"at", strings.TrimPrefix(name, "reg.")}
-	<-c.gate[tid]
 }
 
 func userOf(id string) *ptttype.UserecRaw {
@@ -97,7 +71,363 @@ func classify(err error) string {
 	return "err:" + strings.ReplaceAll(err.Error(), " ", "_")
 }
 
+// ---------------------------------------------------------------- child process
+
+// childMain: a further server process. Commands on stdin, reports on stdout:
+//
+//	init             cmbbs.PasswdInit, as a starting server does   -> inited ok | inited err:...
+//	start <tag> <id> a goroutine calls ptt.SetupNewUser(id)        -> at <tag> <point> ... done <tag> <result>
+//	go <tag>         release the goroutine from its hook point
+//	semval           (diagnostics) value of the passwd semaphore   -> semval <n>
+//	quit
+//
+// <tag> = epoch*64 + thread: the controller drops reports that belong to an earlier schedule.
+func childMain(home string, shmKey, semKey int, light bool) {
+	var mu sync.Mutex
+	out := bufio.NewWriter(os.Stdout)
+	say := func(format string, a ...interface{}) {
+		mu.Lock()
+		fmt.Fprintf(out, format+"\n", a...)
+		out.Flush()
+		mu.Unlock()
+	}
+	if _, err := bbsenv.Attach(home, shmKey, semKey, bbsenv.AttachOptions{SkipConfig: light}); err != nil {
+		say("fatal %s", strings.ReplaceAll(err.Error(), " ", "_"))
+		os.Exit(3)
+	}
+	tagOf := map[string]int{}
+	gate := map[int]chan struct{}{}
+	var tmu sync.Mutex
+	verifhook.SetOnPoint(func(name string) {
+		if !strings.HasPrefix(name, "reg.") {
+			return
+		}
+		tmu.Lock()
+		tag, ok := tagOf[goid()]
+		ch := gate[tag]
+		tmu.Unlock()
+		if !ok {
+			return
+		}
+		say("at %d %s", tag, strings.TrimPrefix(name, "reg."))
+		<-ch
+	})
+	say("ready")
+	in := bufio.NewScanner(os.Stdin)
+	for in.Scan() {
+		f := strings.Fields(in.Text())
+		if len(f) == 0 {
+			continue
+		}
+		switch f[0] {
+		case "init":
+			if err := cmbbs.PasswdInit(); err != nil {
+				say("inited err:%s", strings.ReplaceAll(err.Error(), " ", "_"))
+			} else {
+				say("inited ok")
+			}
+		case "start":
+			if len(f) < 3 {
+				continue
+			}
+			tag, _ := strconv.Atoi(f[1])
+			id := f[2]
+			ch := make(chan struct{}, 1)
+			tmu.Lock()
+			gate[tag] = ch
+			tmu.Unlock()
+			go func() {
+				g := goid()
+				tmu.Lock()
+				tagOf[g] = tag
+				tmu.Unlock()
+				res := hx.CallSync(func() string { return classify(ptt.SetupNewUser(userOf(id))) })
+				tmu.Lock()
+				delete(tagOf, g)
+				tmu.Unlock()
+				say("done %d %s", tag, res)
+			}()
+		case "go":
+			if len(f) < 2 {
+				continue
+			}
+			tag, _ := strconv.Atoi(f[1])
+			tmu.Lock()
+			ch := gate[tag]
+			tmu.Unlock()
+			if ch != nil {
+				select {
+				case ch <- struct{}{}:
+				default:
+				}
+			}
+		case "semval":
+			v, err := cmbbs.Sem.GetVal(0)
+			if err != nil {
+				say("semval err")
+			} else {
+				say("semval %d", v)
+			}
+		case "quit":
+			return
+		}
+	}
+}
+
+// launcherMain: starts the "a server process starts now" processes on behalf of the controller, so
+// that they are not children of a process that hosts registration threads: the SIGCHLD of an exiting
+// child would interrupt a semop the controller's own threads are blocked in (EINTR).
+//
+//	init   start a server process on the environment, let it run PasswdInit, let it exit  -> inited ...
+func launcherMain(home string, shmKey, semKey int) {
+	env = &bbsenv.Env{Home: home, ShmKey: shmKey, SemKey: semKey}
+	in := bufio.NewScanner(os.Stdin)
+	for in.Scan() {
+		switch strings.TrimSpace(in.Text()) {
+		case "init":
+			ch, err := spawn("child", "-light", "1") // starts, runs PasswdInit, exits: never converts text
+			if err != nil {
+				fmt.Printf("inited err:spawn:%s\n", strings.ReplaceAll(err.Error(), " ", "_"))
+				continue
+			}
+			l, ok := ch.ask("init", 10*time.Second)
+			if !ok {
+				l = "inited err:timeout"
+			}
+			ch.quit()
+			fmt.Println(l)
+		case "quit":
+			return
+		}
+	}
+}
+
+type child struct {
+	cmd    *exec.Cmd
+	in     io.WriteCloser
+	stderr *bytes.Buffer
+	misc   chan string
+}
+
+var (
+	children   = map[int]*child{} // server processes 1.. that host registration threads; kept between schedules
+	launcher   *child
+	spawnFails int
+	procStarts int
+)
+
+// spawn starts one more server process on this environment and waits until it is attached.
+func spawn(mode string, more ...string) (*child, error) {
+	bin, err := os.Executable()
+	if err != nil {
+		return nil, err
+	}
+	cmd := exec.Command(bin, "-mode", mode, "-home", env.Home, "-shmkey", strconv.Itoa(env.ShmKey), "-semkey", strconv.Itoa(env.SemKey))
+	cmd.Args = append(cmd.Args, more...)
+	in, _ := cmd.StdinPipe()
+	outp, _ := cmd.StdoutPipe()
+	errBuf := &bytes.Buffer{}
+	cmd.Stderr = errBuf
+	if err := cmd.Start(); err != nil {
+		return nil, err
+	}
+	procStarts++
+	ch := &child{cmd: cmd, in: in, stderr: errBuf, misc: make(chan string, 64)}
+	go func() {
+		sc := bufio.NewScanner(outp)
+		for sc.Scan() {
+			f := strings.Fields(sc.Text())
+			if len(f) >= 3 && (f[0] == "at" || f[0] == "done") {
+				tag, _ := strconv.Atoi(f[1])
+				deliver(tag, event{f[0], f[2]})
+			} else {
+				select {
+				case ch.misc <- sc.Text():
+				default:
+				}
+			}
+		}
+		close(ch.misc)
+	}()
+	if mode != "child" {
+		return ch, nil
+	}
+	if l, ok := ch.ask("", 20*time.Second); !ok || l != "ready" {
+		ch.kill()
+		return nil, fmt.Errorf("server process did not attach: %q %s", l, errBuf.String())
+	}
+	return ch, nil
+}
+
+// ask sends a command (if any) and waits for the next non-event line.
+func (ch *child) ask(cmd string, grace time.Duration) (string, bool) {
+	if cmd != "" {
+		fmt.Fprintln(ch.in, cmd)
+	}
+	select {
+	case l, ok := <-ch.misc:
+		return l, ok
+	case <-time.After(grace):
+		return "TIMEOUT", false
+	}
+}
+
+func (ch *child) quit() {
+	fmt.Fprintln(ch.in, "quit")
+	ch.in.Close()
+	done := make(chan struct{})
+	go func() { _ = ch.cmd.Wait(); close(done) }()
+	select {
+	case <-done:
+	case <-time.After(3 * time.Second):
+		_ = ch.cmd.Process.Kill()
+		<-done
+	}
+}
+
+func (ch *child) kill() {
+	_ = ch.cmd.Process.Kill()
+	ch.in.Close()
+	_ = ch.cmd.Wait()
+}
+
+// hostProc returns the server process p (>= 1), starting and initialising it when needed.
+func hostProc(p int) (*child, error) {
+	if ch, ok := children[p]; ok {
+		return ch, nil
+	}
+	ch, err := spawn("child")
+	if err != nil {
+		return nil, err
+	}
+	if l, ok := ch.ask("init", 10*time.Second); !ok || l != "inited ok" {
+		ch.kill()
+		return nil, fmt.Errorf("PasswdInit in a new server process: %s", l)
+	}
+	children[p] = ch
+	return ch, nil
+}
+
+func closeChildren(hard bool) {
+	if launcher != nil && !hard {
+		launcher.quit()
+		launcher = nil
+	}
+	for p, ch := range children {
+		if hard {
+			ch.kill()
+		} else {
+			ch.quit()
+		}
+		delete(children, p)
+	}
+}
+
+// ---------------------------------------------------------------- controller
+
+type event struct {
+	kind string // at | done
+	arg  string
+}
+
+type fail struct{ key, what string }
+
+type ctl struct {
+	mu      sync.Mutex
+	epoch   int
+	tidOf   map[string]int // goroutines of this process
+	procs   []int          // thread -> process (0 = this process)
+	legacy  bool           // `reg` ops: a release into the lock segment while another thread waits is not driven
+	gate    []chan struct{}
+	events  []chan event
+	state   []string
+	started []bool
+	blocked []bool
+	done    []bool
+	ids     []string
+	errs    []string
+	fails   []fail // P-hat observations made while the schedule runs
+	wakes   []int  // waiters the kernel was seen to hand the semaphore to, not yet written to the schedule
+	inits   int
+	eintr   bool
+}
+
+var (
+	cur    *ctl
+	curMu  sync.Mutex
+	epochs int
+)
+
+func setCur(c *ctl) {
+	curMu.Lock()
+	cur = c
+	curMu.Unlock()
+}
+
+func getCur() *ctl {
+	curMu.Lock()
+	defer curMu.Unlock()
+	return cur
+}
+
+// deliver hands a report of a child-process thread to the schedule it belongs to.
+func deliver(tag int, ev event) {
+	c := getCur()
+	if c == nil || tag/64 != c.epoch || tag%64 >= len(c.events) {
+		return
+	}
+	select {
+	case c.events[tag%64] <- ev:
+	default:
+	}
+}
+
+func hook(name string) {
+	if !strings.HasPrefix(name, "reg.") {
+		return
+	}
+	c := getCur()
+	if c == nil {
+		return
+	}
+	c.mu.Lock()
+	tid, ok := c.tidOf[goid()]
+	c.mu.Unlock()
+	if !ok {
+		return
+	}
+	c.events[tid] <- event{"at", strings.TrimPrefix(name, "reg.")}
+	<-c.gate[tid]
+}
+
+func newCtl(ids []string, procs []int, legacy bool) *ctl {
+	n := len(ids)
+	epochs++
+	c := &ctl{tidOf: map[string]int{}, ids: ids, procs: procs, legacy: legacy, epoch: epochs}
+	for t := 0; t < n; t++ {
+		c.gate = append(c.gate, make(chan struct{}, 1))
+		c.events = append(c.events, make(chan event, 8))
+		c.state = append(c.state, "start")
+	}
+	c.started = make([]bool, n)
+	c.blocked = make([]bool, n)
+	c.done = make([]bool, n)
+	return c
+}
+
+func (c *ctl) tag(t int) int { return c.epoch*64 + t }
+
 func (c *ctl) start(t int) {
+	if p := c.procs[t]; p != 0 {
+		ch, err := hostProc(p)
+		if err != nil {
+			c.errs = append(c.errs, fmt.Sprintf("harness: server process %d: %v", p, err))
+			spawnFails++
+			return
+		}
+		fmt.Fprintf(ch.in, "start %d %s\n", c.tag(t), c.ids[t])
+		return
+	}
 	go func() {
 		c.mu.Lock()
 		c.tidOf[goid()] = t
@@ -106,6 +436,20 @@ func (c *ctl) start(t int) {
 		c.events[t] <- event{"done", res}
 	}()
 }
+
+// goOn releases thread t from the hook point it is stopped at.
+func (c *ctl) goOn(t int) {
+	if p := c.procs[t]; p != 0 {
+		if ch, ok := children[p]; ok {
+			fmt.Fprintf(ch.in, "go %d\n", c.tag(t))
+		}
+		return
+	}
+	c.gate[t] <- struct{}{}
+}
+
+// inside: the thread is known to be stopped at a hook point between reg.afterLock and the post.
+func inside(st string) bool { return st == "locked" || st == "unlocking" }
 
 func (c *ctl) apply(t int, ev event) {
 	c.blocked[t] = false
@@ -121,6 +465,22 @@ func (c *ctl) apply(t int, ev event) {
 	case "afterCheck":
 		c.state[t] = "checked"
 	case "afterLock":
+		// positive observation: t reports from inside the locked section while u is stopped inside it
+		for u := range c.state {
+			if u != t && inside(c.state[u]) {
+				where := "reg.afterLock"
+				if c.state[u] == "unlocking" {
+					where = "reg.beforeUnlock"
+				}
+				extra := ""
+				if c.inits > 0 {
+					extra = fmt.Sprintf(" (%d server process(es) had started meanwhile)", c.inits)
+				}
+				c.fails = append(c.fails, fail{"sem:two-holders", fmt.Sprintf(
+					"registration %d (process %d, id %q) reached reg.afterLock while registration %d (process %d, id %q) was stopped at %s inside the locked section%s",
+					t, c.procs[t], c.ids[t], u, c.procs[u], c.ids[u], where, extra)})
+			}
+		}
 		c.state[t] = "locked"
 	case "beforeUnlock":
 		c.state[t] = "unlocking"
@@ -137,82 +497,204 @@ func (c *ctl) await(t int, grace time.Duration) bool {
 	}
 }
 
+// awaitAny waits for the first report of any of the threads ts.
+func (c *ctl) awaitAny(ts []int, grace time.Duration) (int, bool) {
+	var cases []reflect.SelectCase
+	for _, u := range ts {
+		cases = append(cases, reflect.SelectCase{Dir: reflect.SelectRecv, Chan: reflect.ValueOf(c.events[u])})
+	}
+	cases = append(cases, reflect.SelectCase{Dir: reflect.SelectRecv, Chan: reflect.ValueOf(time.After(grace))})
+	i, v, _ := reflect.Select(cases)
+	if i == len(ts) {
+		return -1, false
+	}
+	c.apply(ts[i], v.Interface().(event))
+	return ts[i], true
+}
+
+// early collects, without waiting, reports of threads that are taken to be blocked in semop: on
+// code that keeps the property there are none while somebody holds the semaphore.
+func (c *ctl) early() {
+	for u := range c.blocked {
+		if !c.blocked[u] {
+			continue
+		}
+		select {
+		case ev := <-c.events[u]:
+			c.apply(u, ev)
+		default:
+		}
+	}
+}
+
 func (c *ctl) semHeld() bool {
 	for _, s := range c.state {
-		if s == "locked" || s == "unlocking" {
+		if inside(s) {
 			return true
 		}
 	}
 	return false
 }
 
-func (c *ctl) anyBlocked() bool {
-	for _, b := range c.blocked {
+func (c *ctl) waiters() []int {
+	var ws []int
+	for u, b := range c.blocked {
 		if b {
-			return true
+			ws = append(ws, u)
 		}
 	}
-	return false
+	return ws
+}
+
+const (
+	grace = 5 * time.Second
+	// how long a thread released towards a taken semaphore is watched until it either reports (it got
+	// past the semaphore) or the kernel counts it among the waiters of the semaphore (GETNCNT); when
+	// neither is seen in that time it is taken to be blocked (what the model says too) — a later report
+	// is still picked up by early()
+	probeMax = 100 * time.Millisecond
+	// the same without GETNCNT
+	probeBlind = 20 * time.Millisecond
+)
+
+// semWaiters: how many threads the kernel has waiting in semop for the passwd semaphore to rise
+// (semctl GETNCNT); -1 when it cannot be asked.
+func semWaiters() int {
+	if cmbbs.Sem == nil {
+		return -1
+	}
+	const getNcnt = 14
+	r, _, e := syscall.Syscall6(syscall.SYS_SEMCTL, uintptr(cmbbs.Sem.SemID), 0, getNcnt, 0, 0, 0)
+	if e != 0 {
+		return -1
+	}
+	return int(r)
+}
+
+// watchBlocked: thread t has been released towards a semaphore that a stopped thread holds. Returns
+// true when t reported instead of blocking (the report has been applied).
+func (c *ctl) watchBlocked(t int, want int) bool {
+	if semWaiters() < 0 {
+		return c.await(t, probeBlind)
+	}
+	deadline := time.Now().Add(probeMax)
+	for {
+		select {
+		case ev := <-c.events[t]:
+			c.apply(t, ev)
+			return true
+		default:
+		}
+		if semWaiters() >= want {
+			confirmed++
+			return false
+		}
+		if time.Now().After(deadline) {
+			return false
+		}
+		time.Sleep(100 * time.Microsecond)
+	}
+}
+
+var stalls, probes, confirmed int
+
+func (c *ctl) stalled(t int, what string) {
+	stalls++
+	c.errs = append(c.errs, fmt.Sprintf("thread %d (process %d) %s", t, c.procs[t], what))
+	c.state[t] = "TIMEOUT"
+	c.done[t] = true
+	c.blocked[t] = false
 }
 
 func (c *ctl) release(t int) {
+	c.early()
 	if c.done[t] || c.blocked[t] {
 		return
 	}
 	if !c.started[t] {
 		c.started[t] = true
 		c.start(t)
-		if !c.await(t, 5*time.Second) {
-			c.errs = append(c.errs, fmt.Sprintf("thread %d did not reach its first point", t))
+		if !c.await(t, 2*grace) {
+			c.stalled(t, "did not reach its first point")
 		}
 		return
 	}
 	switch c.state[t] {
 	case "checked":
-		if c.anyBlocked() {
-			return // not driven: keeps the wake-up order determined (same rule in the model)
+		if c.legacy && len(c.waiters()) > 0 {
+			return // not driven in `reg` ops (same rule in the model's `release`)
 		}
 		held := c.semHeld()
-		c.gate[t] <- struct{}{}
+		c.goOn(t)
 		if held {
-			// the semaphore is taken, so this thread can only end up waiting in semop; its
-			// arrival at reg.afterLock is collected when the holder posts.
-			c.blocked[t] = true
-			c.state[t] = "blocked"
+			// a holder is stopped inside the locked section, so this thread can only end up waiting in
+			// semop; its arrival at reg.afterLock is collected when the holder posts. If it reports
+			// before that, it got past the semaphore next to the holder (apply records it).
+			probes++
+			if !c.watchBlocked(t, len(c.waiters())+1) {
+				c.blocked[t] = true
+				c.state[t] = "blocked"
+			}
 			return
 		}
-		if !c.await(t, 5*time.Second) {
-			c.errs = append(c.errs, fmt.Sprintf("thread %d stalled taking a free semaphore", t))
-			c.state[t] = "TIMEOUT"
-			c.done[t] = true
+		if !c.await(t, grace) {
+			c.stalled(t, "stalled taking a free semaphore")
 		}
 	case "locked":
-		c.gate[t] <- struct{}{}
-		if !c.await(t, 5*time.Second) {
-			c.errs = append(c.errs, fmt.Sprintf("thread %d stalled under the lock", t))
-			c.state[t] = "TIMEOUT"
-			c.done[t] = true
+		c.goOn(t)
+		if !c.await(t, grace) {
+			c.stalled(t, "stalled under the lock")
 		}
 	case "unlocking":
-		c.gate[t] <- struct{}{}
-		if !c.await(t, 5*time.Second) {
-			c.errs = append(c.errs, fmt.Sprintf("thread %d stalled returning", t))
-			c.state[t] = "TIMEOUT"
-			c.done[t] = true
+		ws := c.waiters()
+		c.goOn(t)
+		if !c.await(t, grace) {
+			c.stalled(t, "stalled returning")
 			return
 		}
-		for u := range c.blocked {
-			if c.blocked[u] {
-				if !c.await(u, 5*time.Second) {
-					c.errs = append(c.errs, fmt.Sprintf("waiter %d did not get the semaphore after it was posted", u))
-					c.state[u] = "TIMEOUT"
-					c.done[u] = true
-					c.blocked[u] = false
-				}
-				break
+		if len(ws) == 0 {
+			return
+		}
+		// the semaphore is posted: exactly one waiter gets it — which one is the kernel's choice
+		u, ok := c.awaitAny(ws, grace)
+		if !ok {
+			for _, w := range ws {
+				c.stalled(w, "did not get the semaphore after it was posted")
 			}
+			return
+		}
+		if len(ws) > 1 {
+			c.wakes = append(c.wakes, 50+u)
 		}
 	}
+}
+
+// startProc: one more server process starts on this environment, runs PasswdInit and exits.
+func (c *ctl) startProc() {
+	c.early()
+	c.inits++
+	procStarts++
+	if launcher == nil {
+		l, err := spawn("launcher")
+		if err != nil {
+			c.errs = append(c.errs, "harness: could not start the launcher: "+err.Error())
+			spawnFails++
+			return
+		}
+		launcher = l
+	}
+	l, ok := launcher.ask("init", 30*time.Second)
+	if !ok || strings.HasPrefix(l, "inited err:spawn") {
+		c.errs = append(c.errs, "harness: could not start a server process: "+l)
+		spawnFails++
+		launcher.kill()
+		launcher = nil
+		return
+	}
+	if l != "inited ok" {
+		c.fails = append(c.fails, fail{"init:failed", "cmbbs.PasswdInit in a starting server process: " + l})
+	}
+	c.early()
 }
 
 var debugChains bool
@@ -250,6 +732,14 @@ func diskIDs() []string {
 		out[k] = string(f)
 	}
 	return out
+}
+
+func semValue() int {
+	v, err := cmbbs.Sem.GetVal(0)
+	if err != nil {
+		return -1
+	}
+	return v
 }
 
 func reset(fillTo int) {
@@ -300,12 +790,34 @@ func join(xs []int) string {
 	return strings.Join(s, ",")
 }
 
-func runSchedule(ids []string, fillTo int, sched []int, nontrivial bool) {
-	for attempt := 0; attempt < 4; attempt++ {
-		if runScheduleOnce(ids, fillTo, sched, nontrivial, attempt == 3) {
+// a case: who registers what where, on which table, in which order
+type kase struct {
+	ids    []string
+	procs  []int // nil = `reg` op (threads of this process, one waiter at most)
+	fillTo int
+	sched  []int
+	label  string
+}
+
+var skippedNoted bool
+var lastStates string
+
+func runSchedule(k kase, nontrivial bool) {
+	if stalls > 6 || spawnFails > 3 {
+		if !skippedNoted {
+			skippedNoted = true
+			run.Note("more than 6 five-second stalls (or server processes that do not start): remaining schedules skipped (failures recorded above)")
+		}
+		return
+	}
+	for attempt := 0; attempt < 6; attempt++ {
+		if runScheduleOnce(k, nontrivial, attempt == 5) {
 			return
 		}
 		run.Extra["eintr_retries"] = asInt(run.Extra["eintr_retries"]) + 1
+		if os.Getenv("C15_DEBUG") != "" {
+			fmt.Fprintf(os.Stderr, "eintr: ids %v procs %v sched %v: %s\n", k.ids, k.procs, k.sched, lastStates)
+		}
 	}
 }
 
@@ -319,19 +831,17 @@ func asInt(v interface{}) int {
 // returns false when the run was disturbed by an interrupted semop (EINTR under Go's
 // preemption signals makes a registration fail cleanly, which the property allows but the
 // schedule-level model does not predict) and should be repeated.
-func runScheduleOnce(ids []string, fillTo int, sched []int, nontrivial bool, final bool) bool {
-	reset(fillTo)
+func runScheduleOnce(k kase, nontrivial bool, final bool) bool {
+	ids, sched := k.ids, k.sched
+	reset(k.fillTo)
 	n := len(ids)
-	c := &ctl{tidOf: map[string]int{}, ids: ids}
-	for t := 0; t < n; t++ {
-		c.gate = append(c.gate, make(chan struct{}, 1))
-		c.events = append(c.events, make(chan event, 8))
-		c.state = append(c.state, "start")
+	legacy := k.procs == nil
+	procs := k.procs
+	if legacy {
+		procs = make([]int, n)
 	}
-	c.started = make([]bool, n)
-	c.blocked = make([]bool, n)
-	c.done = make([]bool, n)
-	cur = c
+	c := newCtl(ids, procs, legacy)
+	setCur(c)
 	before := slotIDs()
 	cd := &codes{m: map[string]int{}}
 	var taken []int
@@ -364,57 +874,114 @@ func runScheduleOnce(ids []string, fillTo int, sched []int, nontrivial bool, fin
 		}
 		return strings.Join(c.state, " ") + " | " + f(ni) + " | " + f(nd)
 	}
+	opOf := func(full []int) string {
+		if legacy {
+			return fmt.Sprintf("reg %d %s %s %s", ptttype.MAX_USERS, join(taken), join(idc), join(full))
+		}
+		return fmt.Sprintf("regp %d %s %s %s %s", ptttype.MAX_USERS, join(taken), join(idc), join(procs), join(full))
+	}
 	type rec struct{ op, obs, label string }
 	var recs []rec
-	full := append([]int{}, sched...)
-	for k, t := range sched {
-		c.release(t)
+	var full []int
+	for i, e := range sched {
+		label := k.label
+		if label == "" {
+			label = "prefix"
+		}
+		switch {
+		case e >= 100:
+			if legacy {
+				continue
+			}
+			c.startProc()
+			full = append(full, e)
+			label = "init"
+		case e >= 50 || e >= n:
+			continue // wake elements are written from what is observed, never driven
+		default:
+			c.release(e)
+			full = append(full, e)
+			if len(c.wakes) > 0 {
+				full = append(full, c.wakes...)
+				c.wakes = nil
+				label = "wake"
+			}
+		}
 		if debugChains {
 			e0 := &ptttype.UserID_t{}
-			fmt.Fprintf(os.Stderr, "after release %d: %v | empties head %d next[48]=%d next[49]=%d", t, c.state, cache.Shm.Shm.HashHead[cmsys.StringHashWithHashBits(e0[:])], cache.Shm.Shm.NextInHash[48], cache.Shm.Shm.NextInHash[49])
+			fmt.Fprintf(os.Stderr, "after %d: %v | sem %d | empties head %d", e, c.state, semValue(), cache.Shm.Shm.HashHead[cmsys.StringHashWithHashBits(e0[:])])
 			for _, id := range ids {
 				u := userOf(id)
 				fmt.Fprintf(os.Stderr, " head(%s)=%d", id, cache.Shm.Shm.HashHead[cmsys.StringHashWithHashBits(u.UserID[:])])
 			}
 			fmt.Fprintln(os.Stderr)
 		}
-		label := "prefix"
-		if k == len(sched)-1 {
+		if i == len(sched)-1 {
 			label = "complete"
 		}
-		recs = append(recs, rec{fmt.Sprintf("reg %d %s %s %s", ptttype.MAX_USERS, join(taken), join(idc), join(full[:k+1])), observe(), label})
+		recs = append(recs, rec{opOf(full), observe(), label})
 	}
-	for round := 0; round < 10; round++ {
+	for round := 0; round < 12; round++ {
 		pending := false
 		for t := 0; t < n; t++ {
 			if !c.done[t] {
 				pending = true
 				c.release(t)
 				full = append(full, t)
-				recs = append(recs, rec{fmt.Sprintf("reg %d %s %s %s", ptttype.MAX_USERS, join(taken), join(idc), join(full)), observe(), "drain"})
+				full = append(full, c.wakes...)
+				c.wakes = nil
+				recs = append(recs, rec{opOf(full), observe(), "drain"})
 			}
 		}
 		if !pending {
 			break
 		}
 	}
-	cur = nil
+	setCur(nil)
+	clean := len(c.errs) == 0
+	for t := 0; t < n; t++ {
+		if !c.done[t] || c.state[t] == "TIMEOUT" {
+			clean = false
+		}
+	}
+	if !clean {
+		// threads may be stuck inside the server processes: start from new ones next time
+		closeChildren(true)
+	}
 	if c.eintr && !final {
+		lastStates = strings.Join(c.state, " ")
 		return false
 	}
 	last := -1
 	for i, r := range recs {
 		last = run.Op(r.op, r.obs, r.label, nontrivial && i == len(recs)-1)
 	}
+	if last < 0 {
+		return true
+	}
 	// ---- P-hat --------------------------------------------------------------------
+	for _, f := range c.fails {
+		run.Fail(last, f.key, f.what+" — "+observe())
+	}
 	for _, e := range c.errs {
-		run.Fail(last, "stall", e)
+		if strings.HasPrefix(e, "harness:") {
+			run.Fail(last, "harness:process", e)
+		} else {
+			run.Fail(last, "stall", e)
+		}
 	}
 	for t := 0; t < n; t++ {
 		if !c.done[t] {
 			run.Fail(last, "harness:incomplete-schedule", "not every registration returned: "+observe())
 			return true
 		}
+	}
+	// nobody is registering any more: the passwd semaphore is free, once
+	if v := semValue(); v != 1 {
+		run.Fail(last, "sem:value-after", fmt.Sprintf("after every registration returned the passwd semaphore has the value %d, not 1 (%s)", v, observe()))
+		// reported; the next history starts from a free semaphore again (server processes first: SETVAL clears their undo counts)
+		closeChildren(true)
+		_ = cmbbs.Sem.SetVal(0, 1)
 	}
 	now, dsk := slotIDs(), diskIDs()
 	okByFold := map[string][]int{}
@@ -515,6 +1082,40 @@ func interleavings(counts []int, emit func([]int)) {
 	rec()
 }
 
+// randomSchedule: a random interleaving of 4 releases per thread; with inits > 0, that many
+// "a server process starts" elements at random places after the first two releases.
+func randomSchedule(n, inits int) []int {
+	left := make([]int, n)
+	for i := range left {
+		left[i] = 4
+	}
+	var s []int
+	for {
+		var cand []int
+		for t, l := range left {
+			if l > 0 {
+				cand = append(cand, t)
+			}
+		}
+		if len(cand) == 0 {
+			break
+		}
+		t := cand[run.R.Intn(len(cand))]
+		left[t]--
+		s = append(s, t)
+	}
+	return withInits(s, inits)
+}
+
+func withInits(s []int, inits int) []int {
+	out := append([]int{}, s...)
+	for k := 0; k < inits; k++ {
+		at := 2 + run.R.Intn(len(out)-2)
+		out = append(out[:at], append([]int{100 + k}, out[at:]...)...)
+	}
+	return out
+}
+
 // peerMain: a second server process that takes and releases the passwd lock a few times and exits.
 func peerMain(semKey int) {
 	bbsenv.Quiet()
@@ -546,17 +1147,11 @@ func peerPhase() {
 	ids := []string{"peerid01", "PEERID01"}
 	for round := 0; round < 3; round++ {
 		reset(0)
-		c := &ctl{tidOf: map[string]int{}, ids: ids}
-		for t := 0; t < 2; t++ {
-			c.gate = append(c.gate, make(chan struct{}, 1))
-			c.events = append(c.events, make(chan event, 8))
-			c.state = append(c.state, "start")
-		}
-		c.started, c.blocked, c.done = make([]bool, 2), make([]bool, 2), make([]bool, 2)
-		cur = c
-		c.release(0) // -> checked
-		c.release(0) // -> locked
-		c.release(1) // -> checked
+		c := newCtl(ids, []int{0, 0}, true)
+		setCur(c)
+		c.release(0)            // -> checked
+		c.release(0)            // -> locked
+		c.release(1)            // -> checked
 		c.gate[1] <- struct{}{} // into semWait while thread 0 holds the lock
 		both := c.await(1, 300*time.Millisecond) && c.state[1] == "locked"
 		verdict := "excluded"
@@ -577,19 +1172,71 @@ func peerPhase() {
 			c.release(0)
 			c.release(1)
 		}
-		cur = nil
+		setCur(nil)
 	}
+}
+
+// exitPhase: the server processes exit (each has taken and released the passwd lock many times): the
+// kernel applies their SEM_UNDO counts; the semaphore must be free, once.
+func exitPhase() {
+	if len(children) == 0 {
+		// (replay) let two server processes register a few users first
+		all2 := [][]int{}
+		interleavings([]int{4, 4}, func(s []int) { all2 = append(all2, s) })
+		for i := 0; i < 6; i++ {
+			runSchedule(kase{ids: []string{"exit1", "EXIT1"}, procs: []int{1, 2}, sched: all2[(i*13)%len(all2)], label: "cross"}, true)
+		}
+	}
+	nw := len(children)
+	closeChildren(false)
+	if nw == 0 {
+		return
+	}
+	v := semValue()
+	i := run.Op(fmt.Sprintf("exited %d", nw), fmt.Sprintf("sem=%d", v), "exit", true)
+	if v != 1 {
+		run.Fail(i, "sem:value-after-exit", fmt.Sprintf("after %d server processes that had registered users exited, the passwd semaphore has the value %d, not 1", nw, v))
+		_ = cmbbs.Sem.SetVal(0, 1)
+	}
+}
+
+func argOf(name string) string {
+	for i, a := range os.Args {
+		if a == name && i+1 < len(os.Args) {
+			return os.Args[i+1]
+		}
+	}
+	return ""
+}
+
+func parseInts(s string) []int {
+	if s == "-" || s == "" {
+		return nil
+	}
+	var out []int
+	for _, f := range strings.Split(s, ",") {
+		v, _ := strconv.Atoi(f)
+		out = append(out, v)
+	}
+	return out
 }
 
 func main() {
 	if len(os.Args) > 2 && os.Args[1] == "-mode" && os.Args[2] == "peer" {
-		k := 0
-		for i, a := range os.Args {
-			if a == "-semkey" && i+1 < len(os.Args) {
-				k, _ = strconv.Atoi(os.Args[i+1])
-			}
-		}
+		k, _ := strconv.Atoi(argOf("-semkey"))
 		peerMain(k)
+		return
+	}
+	if len(os.Args) > 2 && os.Args[1] == "-mode" && os.Args[2] == "child" {
+		shmKey, _ := strconv.Atoi(argOf("-shmkey"))
+		semKey, _ := strconv.Atoi(argOf("-semkey"))
+		childMain(argOf("-home"), shmKey, semKey, argOf("-light") == "1")
+		return
+	}
+	if len(os.Args) > 2 && os.Args[1] == "-mode" && os.Args[2] == "launcher" {
+		shmKey, _ := strconv.Atoi(argOf("-shmkey"))
+		semKey, _ := strconv.Atoi(argOf("-semkey"))
+		launcherMain(argOf("-home"), shmKey, semKey)
 		return
 	}
 	run = hx.Start("C15")
@@ -600,6 +1247,7 @@ func main() {
 		panic(err)
 	}
 	defer env.Close()
+	defer closeChildren(false)
 	_ = cmbbs.PasswdInit()
 	pristine, _ = os.ReadFile(ptttype.FN_PASSWD)
 	// make sure the file covers every slot
@@ -619,26 +1267,26 @@ func main() {
 		}
 	}
 	verifhook.SetOnPoint(hook)
-	run.Rule = "every interleaving of the 4 hook-delimited segments (check, semWait, locked section, semPost) of 2 concurrent ptt.SetupNewUser calls (exhaustive) for: same id, ids differing only in case, different ids, an already registered id, and a table with one free slot; 3 registrations sampled (exhaustive in thorough); after every release the observed thread states, the ids new in the shared index and the ids new in .PASSWDS are compared with the model replaying the same schedule prefix; distinct = distinct (id set, schedule)"
+	run.Rule = "registration threads in (process, goroutine) pairs: process 0 = the controller, processes 1.. = the harness re-executed, attached to the same BBSHOME / shared memory / passwd semaphore. Every interleaving of the 4 hook-delimited segments (check, semWait, locked section, semPost) of 2 concurrent ptt.SetupNewUser calls in one process (exhaustive) for: same id, ids differing only in case; sampled for different ids, an already registered id, one free slot, 3 registrations (two waiters at once); across processes: directed shapes (a server process starting — PasswdInit — while the lock is held; a second waiter arriving in the process of a waiter while another process holds the lock) and sampled schedules of 2 processes x 1-2 threads with server starts thrown in (thorough: exhaustive for 2 processes x 1 thread, also with a server start at every position, wider samples otherwise). After every schedule element the observed thread states, the ids new in the shared index and the ids new in .PASSWDS are compared with the model replaying the same prefix; with several waiters the one the kernel woke is observed and written into the schedule; distinct = distinct (id set, process assignment, schedule)"
 
 	if run.Replay != "" {
 		for _, l := range hx.ReplayOps(run.Replay) {
 			f := strings.Fields(l)
-			if len(f) == 5 && f[0] == "reg" {
+			if len(f) == 2 && f[0] == "exited" {
+				exitPhase()
+			}
+			if len(f) == 2 && f[0] == "peer" && f[1] == "0" {
+				peerPhase()
+			}
+			if (len(f) == 5 && f[0] == "reg") || (len(f) == 6 && f[0] == "regp") {
 				// ids are replayed by their codes: equal codes = the same id in different letter case
 				var ids []string
-				for i, cstr := range strings.Split(f[3], ",") {
-					v, _ := strconv.Atoi(cstr)
+				for i, v := range parseInts(f[3]) {
 					id := fmt.Sprintf("replay%02d", v)
 					if i%2 == 1 {
 						id = strings.ToUpper(id[:1]) + id[1:]
 					}
 					ids = append(ids, id)
-				}
-				var sched []int
-				for _, s := range strings.Split(f[4], ",") {
-					v, _ := strconv.Atoi(s)
-					sched = append(sched, v)
 				}
 				free := 0
 				for _, s := range strings.Split(f[2], ",") {
@@ -646,84 +1294,165 @@ func main() {
 						free++
 					}
 				}
-				runSchedule(ids, ptttype.MAX_USERS-free, sched, true)
+				k := kase{ids: ids, fillTo: ptttype.MAX_USERS - free, sched: parseInts(f[len(f)-1])}
+				if f[0] == "regp" {
+					k.procs = parseInts(f[4])
+					if len(k.procs) != len(ids) {
+						continue
+					}
+				}
+				runSchedule(k, true)
 			}
 		}
 		return
 	}
 
+	full := ptttype.MAX_USERS - 1 // a table with one free slot
+	all2 := [][]int{}
+	interleavings([]int{4, 4}, func(s []int) { all2 = append(all2, s) })
+	exhaustive := true
+	thorough := run.Thorough()
+
+	// C15_SCHED / C15_PROCS / C15_IDS: one schedule by hand, with the hash chains printed (debugging aid)
+	if sc := os.Getenv("C15_SCHED"); sc != "" {
+		debugChains = true
+		ids := []string{"newuser1", "NEWUSER1", "newuser2", "newuser3"}
+		if v := os.Getenv("C15_IDS"); v != "" {
+			ids = strings.Split(v, ",")
+		}
+		procs := parseInts(os.Getenv("C15_PROCS"))
+		if procs == nil {
+			procs = []int{0, 0}
+		}
+		runSchedule(kase{ids: ids[:len(procs)], procs: procs, sched: parseInts(sc)}, true)
+		return
+	}
+
+	// ---- 1. threads of one process -------------------------------------------------------
 	type cfg struct {
 		ids    []string
+		procs  []int
 		fillTo int // 0 = leave the fixture table as it is
-		sample int // 0 = all interleavings
+		sample int // 0 = all interleavings (2 threads only)
+		inits  int // server starts thrown into every sampled schedule
 	}
-	cfgs := []cfg{
-		{[]string{"newuser1", "newuser1"}, 0, 0},
-		{[]string{"CaseUser", "caseuser"}, 0, 0},
-		{[]string{"alpha001", "beta0002"}, 0, 30},
-		{[]string{"sysop", "gamma003"}, 0, 30},
-		{[]string{"lastslot1", "lastslot2"}, ptttype.MAX_USERS - 1, 30},
-		{[]string{"tri1", "TRI1", "tri2"}, 0, 60},
+	runCfg := func(cf cfg, label string) {
+		n := len(cf.ids)
+		if cf.sample == 0 && n == 2 {
+			for _, s := range all2 {
+				runSchedule(kase{ids: cf.ids, procs: cf.procs, fillTo: cf.fillTo, sched: s, label: label}, true)
+			}
+			return
+		}
+		exhaustive = false
+		for k := 0; k < cf.sample; k++ {
+			var s []int
+			if n == 2 {
+				s = withInits(all2[run.R.Intn(len(all2))], cf.inits)
+			} else {
+				s = randomSchedule(n, cf.inits)
+			}
+			runSchedule(kase{ids: cf.ids, procs: cf.procs, fillTo: cf.fillTo, sched: s, label: label}, true)
+		}
 	}
-	if run.Thorough() {
-		for i := range cfgs {
-			if len(cfgs[i].ids) == 2 {
-				cfgs[i].sample = 0
+	same := []string{"newuser1", "newuser1"}
+	cased := []string{"CaseUser", "caseuser"}
+	diff := []string{"alpha001", "beta0002"}
+	last := []string{"lastslot1", "lastslot2"}
+	inproc := []cfg{
+		{same, []int{0, 0}, 0, 0, 0},
+		{cased, []int{0, 0}, 0, 0, 0},
+		{diff, []int{0, 0}, 0, 30, 0},
+		{[]string{"sysop", "gamma003"}, []int{0, 0}, 0, 30, 0},
+		{last, []int{0, 0}, full, 30, 0},
+		{[]string{"tri1", "TRI1", "tri2"}, []int{0, 0, 0}, 0, 60, 0},
+	}
+	if thorough {
+		for i := range inproc {
+			if len(inproc[i].ids) == 2 {
+				inproc[i].sample = 0
 			}
 		}
-		cfgs = append(cfgs,
-			cfg{[]string{"tri1", "TRI1", "tri1"}, 0, 0},
-			cfg{[]string{"tri1", "tri2", "tri3"}, ptttype.MAX_USERS - 2, 0},
-			cfg{[]string{"tri1", "TRI1", "tri2"}, 0, 0},
+		inproc = append(inproc,
+			cfg{[]string{"tri1", "TRI1", "tri1"}, []int{0, 0, 0}, 0, 1500, 0},
+			cfg{[]string{"tri1", "tri2", "tri3"}, []int{0, 0, 0}, ptttype.MAX_USERS - 2, 1500, 0},
+			cfg{[]string{"tri1", "TRI1", "tri2"}, []int{0, 0, 0}, 0, 1500, 0},
 		)
 	}
-	exhaustive := true
-	if only := os.Getenv("C15_ONLY"); only != "" {
-		k, _ := strconv.Atoi(only)
-		cfgs = cfgs[k : k+1]
+	for _, cf := range inproc {
+		runCfg(cf, "")
 	}
-	for _, cf := range cfgs {
-		counts := make([]int, len(cf.ids))
-		for i := range counts {
-			counts[i] = 4
-		}
-		var all [][]int
-		interleavings(counts, func(s []int) { all = append(all, s) })
-		if sc := os.Getenv("C15_SCHED"); sc != "" {
-			var s []int
-			for _, x := range strings.Split(sc, ",") {
-				v, _ := strconv.Atoi(x)
-				s = append(s, v)
-			}
-			debugChains = true
-			runSchedule(cf.ids, cf.fillTo, s, true)
-			continue
-		}
-		if rg := os.Getenv("C15_RANGE"); rg != "" {
-			ab := strings.Split(rg, ":")
-			a, _ := strconv.Atoi(ab[0])
-			b, _ := strconv.Atoi(ab[1])
-			for i, s := range all[a:b] {
-				before := run.Extra["x"]
-				_ = before
-				runSchedule(cf.ids, cf.fillTo, s, true)
-				fmt.Fprintf(os.Stderr, "sched #%d %v\n", a+i, s)
-			}
-			continue
-		}
-		if cf.sample == 0 {
-			for _, s := range all {
-				runSchedule(cf.ids, cf.fillTo, s, true)
-			}
-		} else {
-			exhaustive = false
-			for k := 0; k < cf.sample; k++ {
-				runSchedule(cf.ids, cf.fillTo, all[run.R.Intn(len(all))], true)
+
+	// ---- 2. directed shapes across processes ----------------------------------------------
+	// (a) a server process starts while a registration is inside the locked section (stopped at
+	//     reg.afterLock, or at reg.beforeUnlock), then another registration arrives
+	for _, pr := range [][]int{{0, 0}, {0, 1}, {1, 0}, {1, 2}, {1, 1}} {
+		for vi, ids := range [][]string{cased, diff} {
+			for _, s := range [][]int{{0, 0, 100, 1, 1}, {0, 0, 0, 100, 1, 1}, {0, 1, 0, 100, 1}, {0, 100, 0, 1, 101, 1, 0, 102, 0}} {
+				if !thorough && vi == 1 && len(s) != 5 {
+					continue
+				}
+				runSchedule(kase{ids: ids, procs: pr, sched: s, label: "init-while-held"}, true)
 			}
 		}
 	}
+	// (b) one process holds the lock, a thread of another process waits in semop, a second thread of
+	//     the waiter's process arrives: it has to wait too; the post then wakes exactly one of the two
+	for _, pr := range [][]int{{1, 0, 0}, {0, 1, 1}, {1, 2, 2}, {0, 0, 0}, {1, 1, 1}, {0, 1, 2}} {
+		for vi, ids := range [][]string{{"wait1", "WAIT1", "wait1"}, {"wait1", "wait2", "wait3"}, {"wait1", "wait2", "WAIT2"}} {
+			for si, s := range [][]int{{0, 0, 1, 1, 2, 2}, {0, 0, 0, 2, 2, 1, 1}, {0, 1, 2, 0, 2, 1, 100, 0}} {
+				if !thorough && (vi+si)%3 != 0 && !(vi == 0 && si == 0) {
+					continue
+				}
+				runSchedule(kase{ids: ids, procs: pr, sched: s, label: "second-waiter"}, true)
+			}
+		}
+	}
+	// one free slot, three takers in two processes
+	runSchedule(kase{ids: []string{"wait1", "wait2", "wait3"}, procs: []int{1, 0, 0}, fillTo: full, sched: []int{0, 0, 1, 1, 2, 2}, label: "second-waiter"}, true)
+
+	// ---- 3. schedules across processes ------------------------------------------------------
+	var cross []cfg
+	tri := []string{"tri1", "TRI1", "tri2"}
+	if thorough {
+		for _, pr := range [][]int{{0, 1}, {1, 2}} {
+			cross = append(cross, cfg{same, pr, 0, 0, 0}, cfg{cased, pr, 0, 0, 0}, cfg{diff, pr, 0, 0, 0}, cfg{last, pr, full, 0, 0},
+				cfg{[]string{"sysop", "gamma003"}, pr, 0, 0, 0})
+		}
+		cross = append(cross,
+			cfg{cased, []int{0, 1}, 0, 300, 2}, cfg{diff, []int{1, 2}, 0, 300, 2}, cfg{last, []int{1, 0}, full, 200, 1},
+			cfg{tri, []int{0, 0, 1}, 0, 500, 1}, cfg{tri, []int{1, 0, 0}, 0, 500, 1}, cfg{tri, []int{0, 1, 1}, 0, 500, 1}, cfg{tri, []int{1, 2, 2}, 0, 400, 1},
+			cfg{[]string{"tri1", "tri2", "tri3"}, []int{0, 1, 1}, ptttype.MAX_USERS - 2, 400, 1},
+			cfg{[]string{"quad1", "QUAD1", "quad2", "quad2"}, []int{0, 0, 1, 1}, 0, 500, 2},
+			cfg{[]string{"quad1", "quad2", "quad3", "QUAD1"}, []int{1, 2, 1, 2}, full, 300, 1},
+		)
+	} else {
+		cross = []cfg{
+			{same, []int{0, 1}, 0, 0, 0}, {cased, []int{1, 2}, 0, 0, 0}, // all interleavings of 2 processes x 1 thread
+			{same, []int{0, 1}, 0, 30, 1}, {cased, []int{1, 2}, 0, 30, 2}, {diff, []int{0, 1}, 0, 30, 1}, {last, []int{1, 0}, full, 30, 1},
+			{[]string{"sysop", "gamma003"}, []int{1, 2}, 0, 20, 1},
+			{tri, []int{0, 0, 1}, 0, 30, 1}, {tri, []int{1, 0, 0}, 0, 30, 1}, {tri, []int{1, 2, 2}, 0, 30, 1},
+			{[]string{"tri1", "tri2", "tri3"}, []int{0, 1, 1}, ptttype.MAX_USERS - 2, 20, 1},
+			{[]string{"quad1", "QUAD1", "quad2", "quad2"}, []int{0, 0, 1, 1}, 0, 30, 1},
+			{[]string{"quad1", "quad2", "quad3", "QUAD1"}, []int{1, 2, 1, 2}, full, 20, 1},
+		}
+	}
+	for _, cf := range cross {
+		runCfg(cf, "cross")
+	}
+	if thorough {
+		// a server start at every position of every interleaving of 2 processes x 1 thread
+		for _, s := range all2 {
+			for at := 0; at <= len(s); at++ {
+				w := append(append(append([]int{}, s[:at]...), 100), s[at:]...)
+				runSchedule(kase{ids: cased, procs: []int{0, 1}, sched: w, label: "cross-init"}, true)
+			}
+		}
+	}
+	exitPhase()
 	run.Exhaust = exhaustive
-	if os.Getenv("C15_ONLY") == "" {
-		peerPhase()
-	}
+	run.Extra["server_processes_started"] = procStarts
+	run.Extra["releases_into_a_taken_semaphore"] = probes
+	run.Extra["of_which_seen_waiting_in_semop"] = confirmed
+	peerPhase()
 }
